@@ -103,16 +103,24 @@ CLAIMS = {
     "C08": dict(
         text="Model/AOD.lean is the atom-level simulator that defines 'physically executable' (crossed-AOD tone semantics as in the "
              "repository's renderer; picks only from occupied traps, releases only onto vacant trap sites of the layout, no jump "
-             "while holding, grid shapes = tone list lengths, tone state kept per tone id across paths). Theorems for every "
-             "sequence of paths and every occupancy: C08_exec_conserves_atoms (accepted run => number of atoms unchanged, no trap "
-             "with two atoms, atoms only on their old sites or on layout sites). Tie: every library move (CZ move in both copies, "
-             "rearrange, move_by_waypoints, vertical_shift, gr_zero_to_one) is executed by the real interpreter with an event "
-             "logger on its module's layout over all small layouts, valid index lists and every invalid class; the played paths are "
+             "while holding also across consecutive paths, grid shapes = tone list lengths, tone state kept per tone id). "
+             "Model/StdMoves.lean models the five library moves (operation sequence of each traced kernel, reference trace, "
+             "reversal, tone lists, early returns, asserts). Theorems: C08_exec_conserves_atoms (any paths, any occupancy: accepted "
+             "run => atom count unchanged, no trap with two atoms, atoms only on old sites or layout sites); transport / round_trip "
+             "(general pick-carry-release and forward/return laws); C08_waypoints_destination, C08_cz_returns_to_origin, "
+             "C08_rearrange_destination (every zone, every index list on which the kernel's checks pass, every compatible occupancy: "
+             "not rejected, executable, atoms end on the documented sites, nothing else moves); C08_vertical_shift_destination, "
+             "C08_gr_zero_to_one_destination (every valid input on the modelled Gemini spec - 114 + 31 inputs by kernel evaluation - "
+             "lifted to every occupancy). Tie: every library move (CZ move in both copies, rearrange, move_by_waypoints, "
+             "vertical_shift, gr_zero_to_one) is executed by the real interpreter with an event logger on its module's layout over "
+             "all small layouts, valid index lists and every invalid class; the event log is compared with Model/StdMoves.lean and "
              "replayed in the simulator; valid calls must be accepted and end on the documented sites.",
         note=TB + "The physics is a specification (Model/AOD.lean), fixed in DESIGN.md before any move was run through it; "
-                  "collisions in flight are not modelled. The per-move destination is decided on the real paths by the simulator for "
-                  "the enumerated inputs, and proved for all inputs only where Props/C08.lean says so.",
-        technique="Lean 4 invariant proofs over an executable AOD simulator + replay of the real moves' event logs in that simulator",
+                  "collisions in flight are not modelled. 'Rejected or executable' for inputs outside the documented preconditions is "
+                  "decided on the enumerated invalid classes by the simulator, not proved for all of them; the Gemini theorems are "
+                  "about the Lean model of logical.get_spec() (tied to the real spec by C14's correspondence).",
+        technique="Lean 4 invariant and transport proofs over an executable AOD simulator + hand-written move models checked against "
+                  "the real moves' event logs + replay of those logs in the simulator",
         ref="§3 C08"),
     "C09": dict(
         text="Model/Runtime.lean is the analysis of analysis/runtime.py on the program language (both branches, loop body once, "
